@@ -52,18 +52,18 @@ type Ctx struct {
 	All   []*packages.Package          // module packages, sorted
 	NFunc int
 
-	prog    *ssa.Program
-	ssaPkgs map[string]*ssa.Package
-	chaG    *callgraph.Graph
-	vtaG    *callgraph.Graph
-	tmpls   map[string]*parse.Tree // lazily: "file.tmpl" or "file.tmpl#define" -> tree
-	tmplErr error
+	prog      *ssa.Program
+	ssaPkgs   map[string]*ssa.Package
+	chaG      *callgraph.Graph
+	vtaG      *callgraph.Graph
+	tmpls     map[string]*parse.Tree // lazily: "file.tmpl" or "file.tmpl#define" -> tree
+	tmplErr   error
 	tmplFiles map[string]*tmplFile
 
 	loaded []*packages.Package
 	alias  *aliasAnalysis
-	obs   []Ob
-	notes []string // assumptions / remarks for the evidence file
+	obs    []Ob
+	notes  []string // assumptions / remarks for the evidence file
 }
 
 // Load type-checks every package of the module rooted at repo.
